@@ -78,7 +78,13 @@ func floatsEq(a, b []float64) bool {
 
 // eqCall is exact equality of two recorded calls (z tags are not compared).
 func eqCall(a, b rcall) bool {
-	if a.kind != b.kind || a.m != b.m || a.text != b.text || a.img != b.img || !floatsEq(a.data, b.data) {
+	if a.kind != b.kind || a.m != b.m || !floatsEq(a.data, b.data) {
+		return false
+	}
+	if a.text != b.text && (a.text == nil || b.text == nil || !reflect.DeepEqual(a.text, b.text)) {
+		return false // neither the same object nor an equal copy
+	}
+	if a.img != b.img && (a.img == nil || b.img == nil || !reflect.DeepEqual(a.img, b.img)) {
 		return false
 	}
 	if a.kind != kPath {
@@ -191,17 +197,83 @@ func (h hist) String() string {
 var letters = alphabet()
 
 type checker struct {
-	r       *fw.R
-	h       hist
-	mutated bool // a dash slice handed to SetDashes was changed behind the caller's back
-	d5      []string
+	r         *fw.R
+	h         hist
+	mutated   bool // a dash slice handed to SetDashes was changed behind the caller's back
+	d5        []string
+	dry       bool // trial comparison: record failure only
+	dryFailed bool
 }
 
-func (c *checker) fail(class, detail string) { c.r.Violate(class, detail) }
+func (c *checker) fail(class, detail string) {
+	if c.dry {
+		c.dryFailed = true
+		return
+	}
+	c.r.Violate(class, detail)
+}
+
+// optional: a stroke-only draw whose dashes leave nothing on the path.
+func (c *checker) optional(e mcall) bool {
+	if e.kind != kPath || e.st.hasFill() || !e.st.hasStroke() || len(e.st.dashes) == 0 {
+		return false
+	}
+	for _, k := range []float64{1, e.st.width} {
+		empty := true
+		for _, L := range subpathLengths(e.data) {
+			if len(onSet(e.st.dashOffset, e.st.dashes, k, L)) != 0 {
+				empty = false
+			}
+		}
+		if empty {
+			return true
+		}
+	}
+	return false
+}
+
+// compareCall compares one observed renderer call with the expected one; false = the lists are
+// out of step (different kind) and comparing further calls is pointless.
+func (c *checker) compareCall(i int, e mcall, o rcall) bool {
+	r := c.r
+	if e.kind != o.kind {
+		c.fail("call-kind", fmt.Sprintf("call %d is %s, model expects %s", i, kindNames[o.kind], kindNames[e.kind]))
+		return false
+	}
+	if e.z != o.z {
+		c.fail("zindex", fmt.Sprintf("call %d made at z-index %d, model expects %d", i, o.z, e.z))
+	}
+	ok, err := matClose(o.m, e.m, 1e-12)
+	if !ok {
+		c.fail("matrix-"+strings.ToLower(kindNames[e.kind][6:]), fmt.Sprintf("call %d %s: matrix %v, model %v (rel. error %.3g)", i, kindNames[e.kind], fromCanvas(o.m), e.m, err))
+	} else if !c.dry {
+		r.Max("matrix_rel_error", err)
+	}
+	switch e.kind {
+	case kPath:
+		if !floatsEq(e.data, o.data) {
+			c.fail("path-data", fmt.Sprintf("call %d: path %s, expected %s", i, oracle.Fmt(o.data), oracle.Fmt(e.data)))
+		}
+		c.compareStyle(i, e.st, o.style, e.data)
+	case kText:
+		if o.text != theText && !reflect.DeepEqual(o.text, theText) {
+			c.fail("text-object", fmt.Sprintf("call %d: a different *Text was rendered", i))
+		}
+	case kImage:
+		if o.img != theImage && !reflect.DeepEqual(o.img, theImage) {
+			c.fail("image-object", fmt.Sprintf("call %d: a different image was rendered", i))
+		}
+	}
+	return true
+}
 
 // dashFail routes dash-value discrepancies: when the caller's slice was mutated in this very
 // history the root cause is the in-place edit, reported once under its own class.
 func (c *checker) dashFail(class, detail string) {
+	if c.dry {
+		c.dryFailed = true
+		return
+	}
 	if c.mutated {
 		c.d5 = append(c.d5, class+": "+detail)
 		return
@@ -209,8 +281,13 @@ func (c *checker) dashFail(class, detail string) {
 	c.fail(class, detail)
 }
 
+func (c *checker) out(class string) {
+	if !c.dry {
+		c.r.Outcome(class)
+	}
+}
+
 func (c *checker) compareStyle(i int, e mstyle, o canvas.Style, data []float64) {
-	r := c.r
 	at := "call " + strconv.Itoa(i) + ": "
 	if o.Fill.Gradient != nil || o.Fill.Pattern != nil || o.Fill.Color != e.fill {
 		c.fail("style-fill", at+fmt.Sprintf("fill %+v, expected colour %v", o.Fill, e.fill))
@@ -233,7 +310,7 @@ func (c *checker) compareStyle(i int, e mstyle, o canvas.Style, data []float64) 
 		c.fail("style-stroke", at+fmt.Sprintf("stroke %+v, expected colour %v", o.Stroke, e.stroke))
 	}
 	if !eOn && !oOn {
-		r.Outcome("stroke:none")
+		c.out("stroke:none")
 		return
 	}
 	exact := eOn == oOn && o.DashOffset == e.dashOffset && floatsEq(o.Dashes, e.dashes)
@@ -270,22 +347,22 @@ func (c *checker) compareStyle(i int, e mstyle, o canvas.Style, data []float64) 
 	}
 	switch {
 	case exact:
-		r.Outcome("stroke:dashes-recorded-as-set")
+		c.out("stroke:dashes-recorded-as-set")
 	case !oOn:
-		r.Outcome("stroke:removed-by-dash-simplification")
+		c.out("stroke:removed-by-dash-simplification")
 	case len(o.Dashes) == 0:
-		r.Outcome("stroke:dashes-simplified-to-solid")
+		c.out("stroke:dashes-simplified-to-solid")
 	default:
-		r.Outcome("stroke:dashes-rewritten")
+		c.out("stroke:dashes-rewritten")
 	}
 	if len(e.dashes) > 0 {
 		switch {
 		case empty:
-			r.Outcome("dash-meaning(mm):nothing-on-path")
+			c.out("dash-meaning(mm):nothing-on-path")
 		case full:
-			r.Outcome("dash-meaning(mm):whole-path")
+			c.out("dash-meaning(mm):whole-path")
 		default:
-			r.Outcome("dash-meaning(mm):proper-dashes")
+			c.out("dash-meaning(mm):proper-dashes")
 		}
 	}
 	detail := func() string {
@@ -302,9 +379,7 @@ func (c *checker) compareStyle(i int, e mstyle, o canvas.Style, data []float64) 
 	}
 	if bad {
 		class := "style-dashes"
-		if len(e.dashes) > 0 && len(o.Dashes) == 0 && e.dashOffset != 0 && !c.mutated {
-			// the pattern was dropped although the first element, entered at a non-zero
-			// offset, ends before the path does
+		if len(o.Dashes) == 0 && !c.mutated && offsetSignTrigger(e.dashOffset, e.dashes, subpathLengths(data)) {
 			class = "dash-simplification-offset-sign"
 		}
 		c.dashFail(class, detail()+fmt.Sprintf("; equivalent with lengths in mm: %v, in stroke widths: %v", okMM, okW))
@@ -312,12 +387,39 @@ func (c *checker) compareStyle(i int, e mstyle, o canvas.Style, data []float64) 
 	}
 	if okMM != okW {
 		if okMM {
-			r.Outcome("note:recorded-dashes-equivalent-only-if-lengths-are-mm-not-stroke-widths(D20)")
+			c.out("note:recorded-dashes-equivalent-only-if-lengths-are-mm-not-stroke-widths(D20)")
 			noteOnce("D20", "dash simplification against the path length holds only for dash lengths in mm, not in stroke widths as the renderers scale them: "+c.h.String()+" -> "+detail())
 		} else {
-			r.Outcome("note:recorded-dashes-equivalent-only-if-lengths-are-stroke-widths")
+			c.out("note:recorded-dashes-equivalent-only-if-lengths-are-stroke-widths")
 		}
 	}
+}
+
+// offsetSignTrigger names, from the input alone, the situation in which the pattern is dropped
+// wrongly when the part of the first element that lies before the path start is added to instead
+// of subtracted from its length: the path is longer than what is left of the element it starts
+// in (rem) but not longer than the element plus the part already consumed (d[i]+into).
+func offsetSignTrigger(offset float64, d []float64, lens []float64) bool {
+	total, length := 0.0, 0.0
+	for _, v := range d {
+		total += v
+	}
+	for _, l := range lens {
+		length += l
+	}
+	if !(total > 0) {
+		return false
+	}
+	into := math.Mod(offset, total)
+	if into < 0 {
+		into += total
+	}
+	i := 0
+	for d[i] <= into {
+		into -= d[i]
+		i = (i + 1) % len(d)
+	}
+	return into > 0 && d[i]-into < length && length <= d[i]+into
 }
 
 var (
@@ -444,39 +546,36 @@ func check(h hist, r *fw.R, withKey bool) {
 			r.Outcome("observed-invisible-path-call-ignored")
 		}
 	}
-	if len(obs) != len(m.calls) {
-		c.fail("call-count", fmt.Sprintf("%d renderer calls, model expects %d; observed:%s", len(obs), len(m.calls), listString(obs)))
-	}
-	for i := 0; i < len(obs) && i < len(m.calls); i++ {
-		e, o := m.calls[i], obs[i]
-		if e.kind != o.kind {
-			c.fail("call-kind", fmt.Sprintf("call %d is %s, model expects %s", i, kindNames[o.kind], kindNames[e.kind]))
+	// Align observed with expected calls. An expected stroke-only call whose dash pattern leaves
+	// nothing on the path (in either reading of the dash unit) may be made or not.
+	j := 0
+	for i, e := range m.calls {
+		if c.optional(e) {
+			if j < len(obs) {
+				c.dry, c.dryFailed = true, false
+				c.compareCall(i, e, obs[j])
+				c.dry = false
+				if !c.dryFailed {
+					r.Outcome("draw-with-nothing-to-stroke:call-made")
+					j++
+					continue
+				}
+			}
+			r.Outcome("draw-with-nothing-to-stroke:no-visible-call")
+			continue
+		}
+		if j >= len(obs) {
+			c.fail("call-count", fmt.Sprintf("%d visible renderer calls, the model expects call %d (%s at z=%d) as well; observed:%s", len(obs), i, kindNames[e.kind], e.z, listString(obs)))
 			break
 		}
-		if e.z != o.z {
-			c.fail("zindex", fmt.Sprintf("call %d made at z-index %d, model expects %d", i, o.z, e.z))
+		if !c.compareCall(i, e, obs[j]) {
+			j = len(obs)
+			break
 		}
-		ok, err := matClose(o.m, e.m, 1e-12)
-		if !ok {
-			c.fail("matrix-"+strings.ToLower(kindNames[e.kind][6:]), fmt.Sprintf("call %d %s: matrix %v, model %v (rel. error %.3g)", i, kindNames[e.kind], fromCanvas(o.m), e.m, err))
-		} else {
-			r.Max("matrix_rel_error", err)
-		}
-		switch e.kind {
-		case kPath:
-			if !floatsEq(e.data, o.data) {
-				c.fail("path-data", fmt.Sprintf("call %d: path %s, expected %s", i, oracle.Fmt(o.data), oracle.Fmt(e.data)))
-			}
-			c.compareStyle(i, e.st, o.style, e.data)
-		case kText:
-			if o.text != theText {
-				c.fail("text-object", fmt.Sprintf("call %d: a different *Text was rendered", i))
-			}
-		case kImage:
-			if o.img != theImage {
-				c.fail("image-object", fmt.Sprintf("call %d: a different image was rendered", i))
-			}
-		}
+		j++
+	}
+	if j < len(obs) {
+		c.fail("call-count", fmt.Sprintf("%d visible renderer calls, the model expects only %d; observed:%s", len(obs), j, listString(obs)))
 	}
 	// state after the history, then the whole stack popped down (one Pop too many at the end)
 	c.compareState("state", func() string { return "after the history" }, ctxA, m.cur, canvasW, canvasH)
@@ -540,16 +639,24 @@ func check(h hist, r *fw.R, withKey bool) {
 	if reordered {
 		r.Outcome("z-order-differs-from-draw-order")
 	}
+	rawZ := map[int]bool{}
+	for _, oc := range recA.calls { // all calls, also the ones without visible effect: they are layers too
+		rawZ[oc.z] = true
+	}
 	reps := 1
-	if len(zs) > 1 {
-		reps = 16 // the layers live in a map: an unsorted iteration must not slip through by luck
+	if len(rawZ) > 1 {
+		// the layers live in a map: an unsorted iteration must not slip through by luck (a small Go
+		// map iterates in insertion order from a random start: two keys come out swapped 1 in 8 times)
+		reps = 128
 	}
 	var list0 []rcall
+	replayOK := true
 	for rep := 0; rep < reps; rep++ {
 		recB := &recorder{w: canvasW, h: canvasH}
 		cv.RenderTo(recB)
 		list0 = recB.calls
 		if !c.compareReplay(list0, want) {
+			replayOK = false
 			break
 		}
 	}
@@ -560,8 +667,8 @@ func check(h hist, r *fw.R, withKey bool) {
 	if withKey {
 		r.Nontrivial(stateKey(m, recA.calls))
 	}
-	if len(list0) == 0 {
-		return
+	if len(list0) == 0 || !replayOK {
+		return // nothing to move, or no reliable starting point for the Canvas-level checks
 	}
 	c.canvasOps(cv, list0)
 }
